@@ -65,6 +65,9 @@ def run(ctx) -> None:
     ctx.rule("C10.R2-own-value", "each reference is replaced by the value resolved from that same reference")
     ctx.rule("C10.R3-only-substitutions-touch-arguments", "the argument string is assigned only from substitutions of declared "
                                                           "references, its initial read and the final variable fill-in")
+    ctx.rule("C10.R4-one-spelling-per-reference", "the relative spelling (which carries no stage and can be shared by same-named "
+             "producers of different stages) is substituted only on paths where this reference's absolute spelling was not "
+             "found in the arguments")
     ctx.assume("\\b / look-around anchors are accepted as boundaries (the idiom of rewrite_all_references and "
                "_compute_memoization_info)")
 
@@ -130,6 +133,67 @@ def run(ctx) -> None:
                    "arguments assigned from %s" % ("a reference substitution" if is_site else "its initial value" if is_init else "fill_in")
                    if ok else "the argument string is rewritten by something other than a reference substitution",
                    trivial=not is_site)
+
+    # R4: relative spelling only when the absolute one is absent
+    from vlib.cfg import CFG, own_calls
+
+    def spelling_of(e: ast.AST, depth: int = 0) -> Optional[str]:
+        """'absolute' / 'relative' when the pattern expression e is built from that spelling of the loop's reference."""
+        if e is None or depth > 4:
+            return None
+        for n in ast.walk(e):
+            if isinstance(n, ast.Attribute) and n.attr in ("absoluteReference", "relativeReference"):
+                return "absolute" if n.attr == "absoluteReference" else "relative"
+        if isinstance(e, ast.Name):
+            kinds = {spelling_of(v, depth + 1) for v in match.assigned_value(fn, e.id)}
+            kinds.discard(None)
+            if len(kinds) == 1:
+                return kinds.pop()
+        return None
+
+    def search_call_spelling(c: ast.AST) -> Optional[str]:
+        if isinstance(c, ast.Call) and isinstance(c.func, ast.Attribute) and c.func.attr in ("search", "match", "findall", "finditer"):
+            k = spelling_of(c.func.value)
+            if k is None and c.args:
+                k = spelling_of(c.args[0])
+            return k
+        if isinstance(c, ast.Compare) and len(c.ops) == 1 and isinstance(c.ops[0], (ast.In, ast.NotIn)):
+            return spelling_of(c.left)
+        return None
+
+    def found_label(t: ast.AST, which: str) -> Optional[str]:
+        """edge label of test t on which the `which` spelling was FOUND in the arguments."""
+        if isinstance(t, ast.Compare) and len(t.ops) == 1 and isinstance(t.comparators[0], ast.Constant) \
+                and t.comparators[0].value is None and search_call_spelling(t.left) == which:
+            return "T" if isinstance(t.ops[0], (ast.IsNot, ast.NotEq)) else "F"
+        if isinstance(t, ast.Compare) and len(t.ops) == 1 and isinstance(t.ops[0], (ast.In, ast.NotIn)) and spelling_of(t.left) == which:
+            return "T" if isinstance(t.ops[0], ast.In) else "F"
+        if search_call_spelling(t) == which and isinstance(t, ast.Call):
+            return "T"
+        return None
+
+    cfg = CFG(fn)
+    ctx.paths += cfg.paths_count()
+    abs_tests = match.test_nodes(cfg, lambda t: found_label(t, "absolute"))
+    rel_sites = [s for s in ref_sites if spelling_of(s.pattern if s.kind == "regex" else s.key) == "relative"]
+    abs_sites = [s for s in ref_sites if spelling_of(s.pattern if s.kind == "regex" else s.key) == "absolute"]
+    ctx.floor("C10.R4-one-spelling-per-reference", len(rel_sites), 2, "substitutions of the relative spelling in resolveArguments")
+    for s in rel_sites:
+        nodes = [n for n in cfg.nodes if n.ast is not None and n.kind in ("stmt", "test") and any(c is s.call for c in own_calls(n.ast))]
+        ctx.require(bool(nodes), "cannot locate the CFG node of %s" % short(s.call, 60))
+        absent = [(n, match.other(l)) for n, l in abs_tests]
+        ok = bool(abs_tests) and all(match.only_via_edges(cfg, n, absent) for n in nodes)
+        # accepted alternative guard: an explicit stage comparison on the producer
+        if not ok:
+            stage_tests = match.test_nodes(cfg, lambda t: "T" if (isinstance(t, ast.Compare) and "stageIndex" in source.src(t)
+                                                                   and isinstance(t.ops[0], ast.Eq)) else None)
+            ok = bool(stage_tests) and all(match.only_via_edges(cfg, n, stage_tests) for n in nodes)
+        ctx.ob("C10.R4-one-spelling-per-reference", s.call, ok,
+               "the relative spelling is substituted only when this reference's absolute spelling does not occur in the arguments" if ok else
+               "the relative spelling is substituted also when the reference's absolute spelling was found: 'A:ref' is shared by "
+               "stage0.A and stage1.A, so with references [stage0.A:ref, stage1.A:ref] and arguments '-a stage0.A:ref -b A:ref' "
+               "the occurrence that belongs to stage1.A gets stage0.A's value (declaration-order dependent)",
+               construct=short(s.call, 100) + " <- absolute spelling absent")
 
     if ctx.tier == "thorough":
         # information only: the same idiom elsewhere in the repository (outside the property's scope)
